@@ -150,27 +150,28 @@ def q_cases_for(case, out, cid0):
     """Gallina cases that re-evaluate the canonical-form predicates of one decomposition output exactly; small outputs only"""
     kind, s, kw = case["kind"], case["shape"], case["kw"]
     lits = []
+    qtol = 1e-6 if kw.get("svd") == "symeig_svd" else None
     if kind == "DTt":
         for f in out.factors[:-1]:
             if f.size <= 120:
-                lits.append(lambda cid, f=f: qorth_lit(cid, f.reshape(-1, f.shape[2])))
+                lits.append(lambda cid, f=f: qorth_lit(cid, f.reshape(-1, f.shape[2]), qtol))
     elif kind == "DTr":
         n, m = len(s), kw.get("mode", 0)
         f0 = out.factors[m]
         if f0.size <= 120:
-            lits.append(lambda cid: qorth_lit(cid, np.transpose(f0, (1, 0, 2)).reshape(f0.shape[1], -1)))
+            lits.append(lambda cid: qorth_lit(cid, np.transpose(f0, (1, 0, 2)).reshape(f0.shape[1], -1), qtol))
         for j in range(1, n - 1):
             f = out.factors[(m + j) % n]
             if f.size <= 120:
-                lits.append(lambda cid, f=f: qorth_lit(cid, f.reshape(-1, f.shape[2])))
+                lits.append(lambda cid, f=f: qorth_lit(cid, f.reshape(-1, f.shape[2]), qtol))
     elif kind == "DParafac2":
         for p_ in out[2]:
             lits.append(lambda cid, p_=p_: qorth_lit(cid, p_))
     elif kind == "DTucker" and not (kw["init"] == "random" and kw["n_iter_max"] == 0) and prod(s) <= 24 and \
-            (case["seed"] % 4 == 0 or str(kw.get("data", "")).startswith("complex")):
+            (case["seed"] % 4 == 0 or str(kw.get("data", "")).startswith("complex") or "svd" in kw):
         X = data_tensor(s, case["seed"], kind=kw.get("data", "normal"))
         core, factors = out
-        lits.append(lambda cid: qtucker_lit(cid, X, core, factors, list(range(len(s)))))
+        lits.append(lambda cid: qtucker_lit(cid, X, core, factors, list(range(len(s))), tol_orth=qtol))
     return lits
 
 
@@ -557,19 +558,19 @@ def run_decomp(kind, shape, spec, seed, **kw):
         return [shp(t.weights)] + [shp(f) for f in t.factors] + [shp(mp.weights)] + [shp(f) for f in mp.factors], out
     X = data_tensor(shape, seed, positive=kw.get("positive", False), kind=kw.get("data", "normal"))
     if kind == "DTt":
-        out = D.tensor_train(X, spec)
+        out = D.tensor_train(X, spec, svd=kw.get("svd", "truncated_svd"))
         return [shp(f) for f in out.factors] + [tuple(out.shape), tuple(int(r) for r in out.rank)], out
     if kind == "DTtm":
         out = D.tensor_train_matrix(X, spec)
         return [shp(f) for f in out.factors], out
     if kind == "DTr":
-        out = D.tensor_ring(X, spec, mode=kw.get("mode", 0))
+        out = D.tensor_ring(X, spec, mode=kw.get("mode", 0), svd=kw.get("svd", "truncated_svd"))
         return [shp(f) for f in out.factors] + [tuple(out.shape), tuple(int(r) for r in out.rank)], out
     if kind == "DTrAls":
         out = D.tensor_ring_als(X, spec, n_iter_max=kw.get("n_iter_max", 1), random_state=seed)
         return [shp(f) for f in out.factors] + [tuple(out.shape), tuple(int(r) for r in out.rank)], out
     if kind == "DTucker":
-        out = D.tucker(X, spec, n_iter_max=kw.get("n_iter_max", 2), init=kw.get("init", "svd"), random_state=seed, tol=kw.get("tol", 1e-5))
+        out = D.tucker(X, spec, n_iter_max=kw.get("n_iter_max", 2), init=kw.get("init", "svd"), random_state=seed, tol=kw.get("tol", 1e-5), svd=kw.get("svd", "truncated_svd"))
         core, factors = out
         return [shp(core)] + [shp(f) for f in factors], out
     if kind == "DCp":
@@ -667,6 +668,14 @@ def gen_cases(tier, rng):
             yield dict(kind="DTt", shape=s, spec=rng.choice([1, 2, 3]), kw=dict(data=data))
             yield dict(kind="DTr", shape=s, spec=1, kw=dict(mode=rng.randrange(n), data=data))
             yield dict(kind="DTucker", shape=s, spec=rng.choice([1, 2, 3]), kw=dict(init="svd", n_iter_max=2, data=data))
+        # the other SVD methods (Gram-matrix eigh, randomized range finder) on full-rank real and complex data; n_iter_max = 0: the factors are theirs
+        for data in ("normal", "complex"):
+            for svd in ("symeig_svd", "randomized_svd"):
+                if rng.random() < (0.8 if quick else 0.2):
+                    continue
+                yield dict(kind="DTt", shape=s, spec=rng.choice([1, 2, 3]), kw=dict(data=data, svd=svd))
+                yield dict(kind="DTr", shape=s, spec=1, kw=dict(mode=rng.randrange(n), data=data, svd=svd))
+                yield dict(kind="DTucker", shape=s, spec=rng.choice([1, 2, 3]), kw=dict(init="svd", n_iter_max=rng.choice([0, 0, 2]), data=data, svd=svd))
         yield dict(kind="DTucker", shape=s, spec=rng.choice([1, 2, 3]), kw=dict(init=rng.choice(["svd", "random"]), n_iter_max=6, tol=1e10))
         yield dict(kind="DTucker", shape=s, spec=rng.choice([1, 2, 3, 5]), kw=dict(init=rng.choice(["svd", "random"]), n_iter_max=rng.choice([0, 1, 2]), tol=0, data="complex"))
         if n >= 3 or not quick:
@@ -854,7 +863,7 @@ def pred_structure(case, shapes, out):
     """structure predicates on one decomposition output; returns (message, predicate) or None"""
     import tensorly as tl
     kind, s, spec, kw = case["kind"], case["shape"], case["spec"], case["kw"]
-    TOLX = 2e-5 if kw.get("data") == "complex64" else TOL
+    TOLX = 2e-5 if kw.get("data") == "complex64" else 1e-6 if kw.get("svd") == "symeig_svd" else TOL      # eigh of the Gram matrix squares the condition number
     if kind in ("DTt", "DTr", "DTrAls"):
         fs = out.factors
         n = len(s)
@@ -1787,7 +1796,7 @@ def _run(chk, rng):
             chk.sample({"entry": ENTRY[kind], "shape": list(s), "rank": str(spec), "options": {k: str(v_) for k, v_ in kw.items()},
                         "outcome": st, "observed_shapes": [list(x) for x in shapes] if shapes else str(v)[:100]})
         if st == "ok" and out is not None:
-            if kind in ("DTt", "DTr", "DParafac2", "DTucker") and (cid % (16 if tier == "quick" else 10) == 0 or (str(kw.get("data", "")).startswith("complex") and cid % 3 == 0)):
+            if kind in ("DTt", "DTr", "DParafac2", "DTucker") and (cid % (16 if tier == "quick" else 10) == 0 or ((str(kw.get("data", "")).startswith("complex") or "svd" in kw) and cid % 3 == 0)):
                 for mk in q_cases_for(case, out, cid):
                     qid = len(cases)
                     cases.append(mk(qid))
